@@ -6,10 +6,13 @@ export GOFLAGS=-mod=mod GOPROXY=off GOSUMDB=off GOTOOLCHAIN=local
 git -C /repo worktree add --detach $W HEAD >/dev/null 2>&1 || exit 9
 cd $W
 demo=$(ls $SRC/*_test.go 2>/dev/null | head -1)
-cp $demo test/ 2>/dev/null
-echo "--- demo on clean tree"; go test -vet=off -count=1 -run 'Demo|C[0-9][0-9]' ./test/ 2>&1 | tail -3; clean=$?
+script=$(ls $SRC/run_demo.sh $SRC/demo.sh 2>/dev/null | head -1)
+rundemo() {
+  if [ -n "$demo" ]; then cp $demo test/; go test -vet=off -count=1 -run 'Demo|C[0-9][0-9]' ./test/ 2>&1 | grep -E "^(--- FAIL|FAIL|ok|panic)" | head -4; rm -f test/$(basename $demo);
+  elif [ -n "$script" ]; then (cd $SRC && bash $script $W 2>&1 | tail -3; echo "script exit=$?"); fi
+}
+echo "--- demo on clean tree"; rundemo
 git apply $SRC/patch.diff || { echo "patch does not apply"; cd /; git -C /repo worktree remove --force $W; exit 8; }
-echo "--- build + suite with patch"; go build ./... && rm -f test/$(basename $demo) && go test -vet=off -count=1 ./... 2>&1 | grep -v "^ok\|no test files" | tail -5; 
-cp $demo test/
-echo "--- demo with patch"; go test -vet=off -count=1 -run 'Demo|C[0-9][0-9]' ./test/ 2>&1 | grep -E "^(---|FAIL|ok|panic)" | head -8
+echo "--- build + suite with patch (non-ok lines only)"; go build ./... && go test -vet=off -count=1 ./... 2>&1 | grep -v "^ok\|no test files" | tail -5
+echo "--- demo with patch"; rundemo
 cd /; git -C /repo worktree remove --force $W
